@@ -7,6 +7,7 @@ import hashlib
 import importlib
 import json
 import os
+import subprocess
 import sys
 import time
 import traceback
@@ -217,6 +218,34 @@ def check_property(pid, tier="quick", seed=0, out=sys.stdout):
                 known_hits.append((hit, ob, fname))
             else:
                 violations.append((ob, rep, fname))
+    # ---- bounded stand-ins (labelled; never counted as proved) ----
+    bounded_reports = []
+    for con in REG.for_property(pid):
+        if not con.bounded:
+            continue
+        script, nq, nt = con.bounded
+        n = nq if tier == "quick" else nt
+        rep = {"function": con.qualname, "tool": "run-time check of the contract on generated inputs (" + script + ")", "n": n}
+        try:
+            from .source import REPO_SRC
+
+            p = subprocess.run(["/venv/bin/python", os.path.join(VERIF, script), str(n)], capture_output=True, text=True, timeout=600,
+                               env=dict(os.environ, PYVC_REPO_SRC=REPO_SRC, VERIF_SEED=str(seed)))
+            rep.update(json.loads(p.stdout.strip().splitlines()[-1]))
+        except Exception as e:  # noqa: BLE001
+            rep["error"] = repr(e)
+            crashes.append(f"bounded stand-in for {con.qualname} could not run: {e!r}")
+        bounded_reports.append(rep)
+        if rep.get("n_failures"):
+            fname = os.path.join("replays", pid, "bounded_" + con.qualname.replace(":", "_").replace(".", "_") + ".json")
+            json.dump({"property": pid, "verdict": "bounded stand-in found a failing input (native run of the real function)", "function": con.qualname,
+                       "replay": {"reproduced": True, "failing": rep.get("failures")}}, open(os.path.join(VERIF, fname), "w"), indent=1, default=str)
+
+            class _B:
+                oid = con.qualname + "#bounded"
+                note = "bounded stand-in: contract violated on a generated input"
+
+            violations.append((_B, {"reproduced": True}, fname))
     # ---- evidence ----
     n_obl = len(all_obs)
     n_dis = sum(1 for o in all_obs if o.result == "unsat")
@@ -248,6 +277,7 @@ def check_property(pid, tier="quick", seed=0, out=sys.stdout):
             "extraction_drops": sorted({d for _, r in results for d in r.drops} | {"type annotations", "docstrings and comments"}),
             "undecided": undecided,
             "checker_failures": crashes,
+            "bounded": bounded_reports,
             "known_findings": [h["id"] for h, _, _ in known_hits],
             "violations": [o.oid for o, _, _ in violations],
             "explanation": "obligations generated from the AST of the real functions in /repo/src and discharged by z3/cvc5; "
